@@ -17,6 +17,7 @@ type vpFaultConn struct {
 	in     []byte
 	pos    int
 	chunk  int
+	once   bool // one multi-byte read, any of them, is cut short anywhere
 	failAt int
 	eof    bool
 	out    []byte
@@ -43,6 +44,11 @@ func (c *vpFaultConn) Read(p []byte) (int, error) {
 	}
 	if c.chunk > 0 && n > c.chunk {
 		n = c.chunk
+	}
+	if c.once && n > 1 {
+		if k := vp.Choice(n); k > 0 {
+			n, c.once = k, false
+		}
 	}
 	copy(p, c.in[c.pos:c.pos+n])
 	c.pos += n
@@ -79,7 +85,12 @@ func VP_C09_rcon() {
 	frame := good.out
 	switch vp.Choice(3) {
 	case 0: // short reads
-		c := &vpFaultConn{in: append(append([]byte{}, frame...), 0x99), chunk: 1 + vp.Choice(3), failAt: -1, wlimit: -1}
+		c := &vpFaultConn{in: append(append([]byte{}, frame...), 0x99), failAt: -1, wlimit: -1}
+		if k := vp.Choice(4); k == 3 {
+			c.once = true
+		} else {
+			c.chunk = 1 + k
+		}
 		gid, gtyp, gp, err := (&RCONConn{Conn: c}).ReadPacket()
 		vp.Assert(err == nil, "same error-ness under fragmentation")
 		vp.Assert(gid == id && gtyp == typ && gp == payload, "same value under fragmentation")
